@@ -221,6 +221,7 @@ pub broadcast proof fn lemma_popped_wf(vs: Tree, until: int)
 pub broadcast proof fn lemma_popped_mk(l: u32, a: Tree, b: Tree, until: int)
     ensures #[trigger] popped(mk(l, a, b), until) == (if (l as int) >= until { mk(l, a, b) } else { popped(a, until) }),
 {}
+pub broadcast group popped_lemmas { lemma_popped_ok, lemma_popped_wf, lemma_popped_mk }
 pub broadcast group quant_lemmas { lemma_qsem_upd, lemma_sem_upd, lemma_qsem_mk, lemma_qsem_vs_mk, lemma_qsem_vs_leaf, lemma_qsem_const, lemma_popped, lemma_popped_ok, lemma_popped_wf, lemma_popped_mk }
 
 pub proof fn lemma_qsem2_agree(q: u8, op: u8, f: Tree, g: Tree, vs: Tree, e1: Env, e2: Env)
@@ -843,9 +844,13 @@ pub broadcast proof fn lemma_tv_ct(n: bool)
     ensures #[trigger] tv(ct(n)) == Tree::Leaf(!n),
 { reveal(tv); reveal_with_fuel(nx, 1); }
 pub broadcast proof fn lemma_tv_props(c: CE)
-    ensures cwf(c) ==> wf(#[trigger] tv(c)), top(tv(c)) == ctop(c), (tv(c) is Leaf) == (c.node is One),
-        (tv(c) == Tree::Leaf(false)) == (c == ct(true)), (tv(c) == Tree::Leaf(true)) == (c == ct(false)),
+    ensures cwf(c) ==> wf(#[trigger] tv(c)), top(tv(c)) == ctop(c),
 { reveal(tv); reveal_with_fuel(nx, 1); lemma_nx_top(c.node, c.neg); if cwf(c) { lemma_nwf_wf_rec(c.node, c.neg); } }
+/// which edges expand to a leaf (only ⊤ and ⊥)
+pub broadcast proof fn lemma_tv_leaf(c: CE)
+    ensures (#[trigger] tv(c) is Leaf) == (c.node is One),
+        (tv(c) == Tree::Leaf(false)) == (c == ct(true)), (tv(c) == Tree::Leaf(true)) == (c == ct(false)),
+{ reveal(tv); reveal_with_fuel(nx, 1); lemma_nx_top(c.node, c.neg); }
 pub broadcast proof fn lemma_tv_below(c: CE, m: int)
     requires cbelow(c, m),
     ensures #[trigger] below(tv(c), m),
@@ -869,6 +874,7 @@ pub broadcast proof fn lemma_cxor_id(c: CE, b: bool)
 {}
 pub broadcast group ce_tree { lemma_csem_tv, lemma_sem_mk, lemma_wf_mk, lemma_below_mk, lemma_tv_cmk, lemma_tv_ct, lemma_tv_props, lemma_tv_below,
     lemma_vsv_cmk, lemma_vsv_ct, lemma_vsv_props, lemma_vsv_below, lemma_cxor_id }
+pub broadcast group ce_leaf { lemma_tv_leaf }
 /// different edges of normal-form diagrams denote different BDDs (contrapositive of injectivity), for `reduce`
 pub broadcast proof fn lemma_tv_neq(a: CE, b: CE)
     requires cwf(a), cwf(b), a != b,
@@ -960,6 +966,22 @@ pub proof fn result_determined_by_spec(r1: CE, r2: CE, spec: spec_fn(Env) -> boo
     ensures r1 == r2,
 {
     canonicity(r1, r2);
+}
+/// C02, cofactors: the two edges returned by `collect_cofactors` / `BCDDRules::cofactor(s)` for an edge `c` to an inner
+/// node (`cxor(then, c.neg)`, `cxor(else, c.neg)`) are the two Shannon cofactors of `c` w.r.t. its top-most variable
+//@lemma name=cofactors_are_shannon props=C02
+pub proof fn cofactors_are_shannon(n: bool, l: u32, t: CE, e: CE, env: Env)
+    requires cwf(cmk(n, l, t, e)),
+    ensures
+        csem(cmk(n, l, t, e), env) == (if env(l as int) { csem(cxor(t, n), env) } else { csem(cxor(e, n), env) }),
+        csem(cxor(t, n), env) == csem(cmk(n, l, t, e), upd(env, l as int, true)),
+        csem(cxor(e, n), env) == csem(cmk(n, l, t, e), upd(env, l as int, false)),
+{
+    lemma_csem_cmk(n, l, t, e, env); lemma_csem_cxor(t, n, env); lemma_csem_cxor(e, n, env);
+    lemma_csem_cmk(n, l, t, e, upd(env, l as int, true)); lemma_csem_cmk(n, l, t, e, upd(env, l as int, false));
+    reveal_with_fuel(nwf, 2);
+    lemma_csem_tv(t, env); lemma_csem_tv(t, upd(env, l as int, true)); lemma_tv_props(t); lemma_sem_upd(tv(t), env, l as int, true);
+    lemma_csem_tv(e, env); lemma_csem_tv(e, upd(env, l as int, false)); lemma_tv_props(e); lemma_sem_upd(tv(e), env, l as int, false);
 }
 /// adding variables (new levels are appended below all existing ones) does not change the function of an existing diagram
 //@lemma name=add_vars_preserves_function props=C01,C16
@@ -1102,6 +1124,10 @@ pub trait Manager: Sized {
     fn level(&self, no: LevelNo) -> (r: Self::LevelView<'_>)
         requires (no as int) < self.num_levels_spec()
         ensures r.level_no_spec() == no;
+    spec fn level_to_var_spec(&self, l: int) -> int;
+    fn level_to_var(&self, level: LevelNo) -> (v: VarNo)
+        requires (level as int) < self.num_levels_spec()
+        ensures v as int == self.level_to_var_spec(level as int), (v as int) < self.num_levels_spec();
     fn var_to_level(&self, var: VarNo) -> (l: LevelNo)
         requires (var as int) < self.num_levels_spec()
         ensures l as int == self.var_to_level_spec(var as int), (l as int) < self.num_levels_spec() <= u32::MAX as int;
@@ -1193,6 +1219,14 @@ impl TagLike for EdgeTag { open spec fn is_c(&self) -> bool { *self == EdgeTag::
 //@end
 //@item file=crates/oxidd-core/src/lib.rs path=enum:ReducedOrNew vis=pub
 //@end
+//@item file=crates/oxidd-core/src/util/mod.rs path=enum:OptBool attrs="#[derive(Clone, Copy, PartialEq, Eq, Structural)] #[repr(i8)]" vis=pub
+//@end
+//@item file=crates/oxidd-core/src/util/mod.rs path=impl:From<bool>~for~OptBool props=C13
+//@end
+impl vstd::std_specs::convert::FromSpecImpl<bool> for OptBool {
+    open spec fn obeys_from_spec() -> bool { true }
+    open spec fn from_spec(v: bool) -> OptBool { if v { OptBool::True } else { OptBool::False } }
+}
 //@item file=crates/oxidd-core/src/function.rs path=enum:BooleanOperator attrs="#[derive(Clone, Copy, PartialEq, Eq, Structural)]" vis=pub
 //@end
 pub struct BCDDTerminal;
@@ -1268,6 +1302,26 @@ impl CacheOp for BCDDOp {
         } else { false }
     }
 }
+
+// ---------- pick_cube (C13): the cube vector holds the literals of one path that never enters a false child ----------
+/// `new` is `old` with the literals of one such path of `t` written at the positions `level_to_var(level)`
+pub open spec fn cube_rel<M: Manager>(m: &M, t: Tree, old: Seq<OptBool>, new: Seq<OptBool>) -> bool decreases t {
+    match t {
+        Tree::Leaf(_) => new == old,
+        Tree::Inner(l, a, b) =>
+            (*a != ff() && cube_rel(m, *a, old.update(m.level_to_var_spec(l as int), OptBool::True), new))
+            || (*b != ff() && cube_rel(m, *b, old.update(m.level_to_var_spec(l as int), OptBool::False), new)),
+    }
+}
+pub broadcast proof fn lemma_cube_rel_mk<M: Manager>(m: &M, l: u32, a: Tree, b: Tree, old: Seq<OptBool>, new: Seq<OptBool>)
+    ensures #[trigger] cube_rel(m, mk(l, a, b), old, new) == (
+            (a != ff() && cube_rel(m, a, old.update(m.level_to_var_spec(l as int), OptBool::True), new))
+            || (b != ff() && cube_rel(m, b, old.update(m.level_to_var_spec(l as int), OptBool::False), new))),
+{}
+pub broadcast proof fn lemma_cube_rel_leaf<M: Manager>(m: &M, c: bool, old: Seq<OptBool>, new: Seq<OptBool>)
+    ensures #[trigger] cube_rel(m, Tree::Leaf(c), old, new) == (new == old),
+{}
+pub broadcast group cube_lemmas { lemma_cube_rel_mk, lemma_cube_rel_leaf }
 // ---------- units: crates/oxidd-rules-bdd/src/lib.rs ----------
 /// variables above level `until` removed from the set: follows the STORED then-edges of the nodes (tags ignored)
 pub open spec fn cpopped(c: CE, until: int) -> CE decreases c {
@@ -1313,7 +1367,7 @@ pub use lib_rs::set_pop;
 // ---------- units: crates/oxidd-rules-bdd/src/complement_edge/mod.rs ----------
 mod complement_edge {
 use super::*;
-broadcast use {ce_core, ce_tree, ce_inj_lemmas};
+broadcast use {ce_core, ce_tree, ce_leaf, ce_inj_lemmas};
 //@fn file=crates/oxidd-rules-bdd/src/complement_edge/mod.rs path=fn:not_owned ret=r props=C02
 //@spec
     ensures r.cv() == cflip(e.cv()),
@@ -1584,11 +1638,6 @@ broadcast use {ce_core, ce_tree, cpop_lemmas, quant_lemmas, quant2_lemmas};
     requires is_qop(Q), edge_ok::<M::Edge>(), okc(f.cv(), manager.num_levels_spec()), okc(vars.cv(), manager.num_levels_spec()),
     ensures res is Ok ==> quant_post(qcode(Q), f.cv(), vars.cv(), manager.num_levels_spec(), res->Ok_0.cv()),
 //@end
-//@fn file=crates/oxidd-rules-bdd/src/complement_edge/apply_rec.rs path=fn:apply_quant nodecr expect=R5:1,R12:1 props=C04,C06 vis=pub cases=Q:BCDDOp::Forall~as~u8,BCDDOp::Exists~as~u8,BCDDOp::Unique~as~u8
-//@spec
-    requires is_aq(Q, OP), edge_ok::<M::Edge>(), okc(f.cv(), manager.num_levels_spec()), okc(g.cv(), manager.num_levels_spec()), okc(vars.cv(), manager.num_levels_spec()),
-    ensures res is Ok ==> apply_quant_post(qcode(Q), opcode(OP), f.cv(), g.cv(), vars.cv(), manager.num_levels_spec(), res->Ok_0.cv()),
-//@end
 //@fn file=crates/oxidd-rules-bdd/src/complement_edge/apply_rec.rs path=impl:BooleanFunctionQuant~for~BCDDFunction<F>/fn:forall_edge props=C04
 //@header
 fn forall_edge<M>(manager: &M, root: &M::Edge, vars: &M::Edge) -> (res: AllocResult<M::Edge>)
@@ -1615,10 +1664,23 @@ where M: Manager<EdgeTag = EdgeTag, Terminal = BCDDTerminal> + HasApplyCache<M, 
 //@end
 } // mod apply_rec_q
 
+mod apply_rec_aq {
+use super::*;
+use super::apply_rec::*;
+use super::apply_rec_q::*;
+broadcast use {ce_core, ce_tree, cpop_lemmas, popped_lemmas, quant2_lemmas};
+//@fn file=crates/oxidd-rules-bdd/src/complement_edge/apply_rec.rs path=fn:apply_quant nodecr expect=R5:1,R12:1 props=C04,C06 vis=pub cases=Q:BCDDOp::Forall~as~u8,BCDDOp::Exists~as~u8,BCDDOp::Unique~as~u8
+//@spec
+    requires is_aq(Q, OP), edge_ok::<M::Edge>(), okc(f.cv(), manager.num_levels_spec()), okc(g.cv(), manager.num_levels_spec()), okc(vars.cv(), manager.num_levels_spec()),
+    ensures res is Ok ==> apply_quant_post(qcode(Q), opcode(OP), f.cv(), g.cv(), vars.cv(), manager.num_levels_spec(), res->Ok_0.cv()),
+//@end
+} // mod apply_rec_aq
+
 mod apply_rec_d {
 use super::*;
 use super::apply_rec::*;
 use super::apply_rec_q::*;
+use super::apply_rec_aq::*;
 broadcast use {ce_core, ce_tree, dual_lemmas};
 //@fn file=crates/oxidd-rules-bdd/src/complement_edge/apply_rec.rs path=fn:apply_quant_dispatch expect=R12:1 props=C04 vis=pub "selfcall=const OA: u8>exec const OA: u8,const OX: u8>exec const OX: u8"
 //@spec
@@ -1704,7 +1766,7 @@ where M: Manager<EdgeTag = EdgeTag, Terminal = BCDDTerminal> + HasApplyCache<M, 
 
 mod apply_rec_p {
 use super::*;
-broadcast use {ce_core, ce_tree, cpop_lemmas, pick_lemmas};
+broadcast use {ce_core, ce_tree, ce_leaf, cpop_lemmas, pick_lemmas, cube_lemmas};
 //@fn file=crates/oxidd-rules-bdd/src/complement_edge/apply_rec.rs path=impl:BooleanFunction~for~BCDDFunction<F>/fn:pick_cube_dd_edge/fn:inner rename=pick_cube_dd_edge__inner props=C13
 //@spec
     requires edge_ok::<M::Edge>(), okc(edge.cv(), manager.num_levels_spec()),
@@ -1718,6 +1780,31 @@ broadcast use {ce_core, ce_tree, cpop_lemmas, pick_lemmas};
     requires edge_ok::<M::Edge>(), okc(edge.cv(), manager.num_levels_spec()), okc(literal_set.cv(), manager.num_levels_spec()),
     ensures res is Ok ==> pick_ok(tv(edge.cv()), tv(literal_set.cv()), tv(res->Ok_0.cv())) && okc(res->Ok_0.cv(), manager.num_levels_spec()),
     decreases u32::MAX as int - ctop(edge.cv()),
+//@end
+//@fn file=crates/oxidd-rules-bdd/src/complement_edge/apply_rec.rs path=impl:BooleanFunction~for~BCDDFunction<F>/fn:pick_cube_edge/fn:inner rename=pick_cube_edge__inner props=C13
+//@spec
+    requires edge_ok::<M::Edge>(), okc(edge.cv(), manager.num_levels_spec()), old(cube)@.len() == manager.num_levels_spec(),
+        forall|l: int| 0 <= l < manager.num_levels_spec() ==> 0 <= #[trigger] manager.level_to_var_spec(l) < manager.num_levels_spec(),
+        forall|mm: &M, ee: &M::Edge, l: LevelNo| (tv(ee.cv()) matches Tree::Inner(k, a, b) && k == l && *a != ff() && *b != ff()) ==> #[trigger] choice.requires((mm, ee, l)),
+    ensures final(cube)@.len() == old(cube)@.len(), cube_rel(manager, tv(edge.cv()), old(cube)@, final(cube)@),
+    decreases u32::MAX as int - ctop(edge.cv()),
+//@end
+//@fn file=crates/oxidd-rules-bdd/src/complement_edge/apply_rec.rs path=impl:BooleanFunction~for~BCDDFunction<F>/fn:pick_cube_dd_edge hoist=inner>pick_cube_dd_edge__inner props=C13
+//@header
+fn pick_cube_dd_edge<M>(manager: &M, edge: &M::Edge, choice: impl FnMut(&M, &M::Edge, LevelNo) -> bool) -> (res: AllocResult<M::Edge>)
+where M: Manager<EdgeTag = EdgeTag, Terminal = BCDDTerminal> + HasApplyCache<M, BCDDOp>, M::InnerNode: HasLevel,
+//@spec
+    requires edge_ok::<M::Edge>(), okc(edge.cv(), manager.num_levels_spec()),
+        forall|mm: &M, ee: &M::Edge, l: LevelNo| (tv(ee.cv()) matches Tree::Inner(k, a, b) && k == l && *a != ff() && *b != ff()) ==> #[trigger] choice.requires((mm, ee, l)),
+    ensures res is Ok ==> pick_ok(tv(edge.cv()), Tree::Leaf(true), tv(res->Ok_0.cv())) && okc(res->Ok_0.cv(), manager.num_levels_spec()),
+//@end
+//@fn file=crates/oxidd-rules-bdd/src/complement_edge/apply_rec.rs path=impl:BooleanFunction~for~BCDDFunction<F>/fn:pick_cube_dd_set_edge hoist=inner>pick_cube_dd_set_edge__inner props=C13
+//@header
+fn pick_cube_dd_set_edge<M>(manager: &M, edge: &M::Edge, literal_set: &M::Edge) -> (res: AllocResult<M::Edge>)
+where M: Manager<EdgeTag = EdgeTag, Terminal = BCDDTerminal> + HasApplyCache<M, BCDDOp>, M::InnerNode: HasLevel,
+//@spec
+    requires edge_ok::<M::Edge>(), okc(edge.cv(), manager.num_levels_spec()), okc(literal_set.cv(), manager.num_levels_spec()),
+    ensures res is Ok ==> pick_ok(tv(edge.cv()), tv(literal_set.cv()), tv(res->Ok_0.cv())) && okc(res->Ok_0.cv(), manager.num_levels_spec()),
 //@end
 } // mod apply_rec_p
 } // mod complement_edge
